@@ -90,11 +90,13 @@ Kernel::Walk Kernel::walk(const std::string &path) {
   bool trailing_slash = path.size() > 1 && path.back() == '/';
   if (parts.empty()) { w.dir = root; w.ino = root; w.name = "/"; w.canon = "/"; return w; }
   Inode *cur = d;
+  // a walk that fails half-way still reports the lexical path it was asked for (traces and oracles name it)
+  auto lexical_rest = [&](size_t from) { for (size_t q = from; q < parts.size(); q++) { if (parts[q] == ".") continue; if (parts[q] == "..") { if (!canon.empty()) canon.pop_back(); continue; } canon.push_back(parts[q]); } w.canon = ""; for (auto &c : canon) { w.canon += "/"; w.canon += c; } if (w.canon.empty()) w.canon = "/"; };
   for (size_t k = 0; k < parts.size(); k++) {
     const std::string &c = parts[k];
     bool last = k + 1 == parts.size();
-    if (cur->type != T_DIR) { w.err = ENOTDIR; return w; }
-    if (c.size() > 255) { w.err = ENAMETOOLONG; return w; }
+    if (cur->type != T_DIR) { w.err = ENOTDIR; lexical_rest(k); return w; }
+    if (c.size() > 255) { w.err = ENAMETOOLONG; lexical_rest(k); return w; }
     Inode *nxt = nullptr;
     if (c == ".") nxt = cur;
     else if (c == "..") { nxt = inodes.count(cur->parent) ? inodes[cur->parent] : root; if (!canon.empty()) canon.pop_back(); }
@@ -103,7 +105,7 @@ Kernel::Walk Kernel::walk(const std::string &path) {
       w.dir = cur; w.ino = nxt; w.name = c;
       if (nxt && trailing_slash && nxt->type != T_DIR) { w.err = ENOTDIR; }
     } else {
-      if (!nxt) { w.err = ENOENT; return w; }
+      if (!nxt) { w.err = ENOENT; lexical_rest(k + 1); return w; }
       cur = nxt;
     }
   }
